@@ -1,7 +1,13 @@
 """Generators for C12: documents rich in sub-documents / arrays of sub-documents / mixed arrays,
 and the projection grammar (dict and list forms, `_id` toggling, nested dotted paths, `$slice`
 counts and pairs, `$elemMatch` conditions, and a malformed stream); a second flavour draws
-documents whose arrays carry datetimes and projections whose conditions look at them."""
+documents whose arrays carry datetimes and projections whose conditions look at them.
+
+Field names below the top level are the top-level ones (a dotted path and a top-level name of the
+projection meet the same name at two depths) and, one sub-document in four, `_id`: the name the
+projection treats specially at the top level ONLY (kept unless `_id: 0`, never a plain path) is an
+ordinary field anywhere else - in an embedded document, in a document element of an array, in a
+document inside a nested array - and is kept / removed there only when a dotted path names it."""
 import copy
 import datetime
 
@@ -42,7 +48,22 @@ class ProjGen(object):
 
     def subdoc(self, depth):
         n = self.r.choice([0, 1, 2, 2, 3])
-        return {f: self.value(depth) for f in self.r.sample(SUBFIELDS, n)}
+        d = {f: self.value(depth) for f in self.r.sample(SUBFIELDS, n)}
+        return self.nested_id(d, 0.25)
+
+    def nested_id(self, d, prob):
+        """now and then a sub-document has an `_id` of its own (first, last or in between; a
+        scalar, seldom a document): below the top level the name means nothing special"""
+        r = self.r
+        if r.random() >= prob:
+            return d
+        self.note('nested_id')
+        v = self.g.simple_scalar() if r.random() < 0.9 else {'a': r.choice(gen.INTS)}
+        items = list(d.items())
+        pos = r.random()
+        items.insert(0 if pos < 0.5 else len(items) if pos < 0.75 else
+                     r.randrange(len(items) + 1), ('_id', v))
+        return dict(items)
 
     def doc(self, _id):
         r = self.r
@@ -282,7 +303,7 @@ class ProjGen(object):
                 it[other] = r.choice(gen.INTS)
             if r.random() < 0.3:
                 it = dict(reversed(list(it.items())))
-            out.append(it)
+            out.append(self.nested_id(it, 0.15))
         return out
 
     def dated_doc(self, _id):
@@ -297,7 +318,7 @@ class ProjGen(object):
             elif x < 0.55:
                 d[f] = self.date()
             elif x < 0.75:
-                d[f] = {'a': self.date(), 'b': r.choice(gen.INTS)}
+                d[f] = self.nested_id({'a': self.date(), 'b': r.choice(gen.INTS)}, 0.25)
             else:
                 d[f] = self.value(1)
         if r.random() < 0.2:
